@@ -60,7 +60,8 @@ func runC20(c *Ctx) {
 			purego = true
 		}
 	}
-	pureScan(c, "C20.pure.no-package-state", c.P.Func("pkg/curl", "Curl.transform"), c.P.Func("pkg/curl", "transformGeneric"))
+	cm, cp, cg := curlPermFns(c)
+	pureScan(c, "C20.pure.no-package-state", cm, cp, cg)
 	c20SboxDefinition(c)
 	c20Go(c)
 	if !purego && (c.P.Cfg.GOARCH == "" || c.P.Cfg.GOARCH == "amd64") {
@@ -132,7 +133,7 @@ func c20Asm(c *Ctx) {
 		r.Undec("C20.asm-bounds.parse", "pkg/curl/transform_amd64.s", "assembly not in the modelled subset: %v", err)
 		return
 	}
-	stub := c.P.Func("pkg/curl", "transform")
+	_, stub, _ := curlPermFns(c)
 	if stub == nil || stub.Blocks != nil {
 		r.Undec("C20.asm-bounds.stub", "", "Go declaration of transform without body not found in this configuration")
 		return
@@ -145,7 +146,7 @@ func c20Asm(c *Ctx) {
 			okSig = false
 		}
 	}
-	r.Check(okSig && f.Name == "transform" && f.FrameSize == 0 && f.ArgSize == 32 && f.Flags == "NOSPLIT", "C20.asm-bounds.frame", "pkg/curl/transform_amd64.s", "TEXT ·transform(SB), NOSPLIT, $0-32 matches func transform(%s *[729]uint) (4 pointers = 32 bytes, no locals)", strings.Join(params, ", "))
+	r.Check(okSig && f.Name == stub.Name() && f.FrameSize == 0 && f.ArgSize == 32 && f.Flags == "NOSPLIT", "C20.asm-bounds.frame", "pkg/curl/transform_amd64.s", "TEXT ·transform(SB), NOSPLIT, $0-32 matches func transform(%s *[729]uint) (4 pointers = 32 bytes, no locals)", strings.Join(params, ", "))
 	roundPC, ok := f.Labels["RoundLoop"]
 	if !ok {
 		// any label that the final conditional jump targets
@@ -239,8 +240,8 @@ func c20Asm(c *Ctx) {
 
 func c20Go(c *Ctx) {
 	r := c.R
-	fn := c.P.Func("pkg/curl", "transformGeneric")
-	sbox := c.P.Func("pkg/curl", "sBox")
+	_, _, fn := curlPermFns(c)
+	sbox := c.helper("pkg/curl", "sBox")
 	if fn == nil || sbox == nil {
 		r.Undec("C20.schedule.go", "", "transformGeneric / sBox not found")
 		return
@@ -419,11 +420,12 @@ func c20BuildTags(c *Ctx) {
 func c20Wiring(c *Ctx, purego bool) {
 	r := c.R
 	// Curl.transform: four distinct buffers, result copied from the to pair
-	if f := c.P.Func("pkg/curl", "Curl.transform"); f != nil {
+	cm, cp, cg := curlPermFns(c)
+	if f := cm; f != nil {
 		b := ana.NewBuilder(c.P, f)
 		ok := false
 		for _, ci := range ana.Calls(f) {
-			if ci.Common().StaticCallee() != nil && ci.Common().StaticCallee().Name() == "transform" {
+			if ci.Common().StaticCallee() != nil && ci.Common().StaticCallee() == cp {
 				t := b.CallTermAt(ci)
 				_, ok = ana.Match("call<*>(alloc<[729]uint>, alloc<[729]uint>, faddr<l>(p0), faddr<h>(p0))", t)
 				a0, a1 := ci.Common().Args[0], ci.Common().Args[1]
@@ -451,14 +453,14 @@ func c20Wiring(c *Ctx, purego bool) {
 		r.Check(ok, "C20.rounds.call-site", c.P.Pos(f.Pos()), "Curl.transform passes two fresh arrays as the to pair and its own l, h as the from pair (four distinct objects) and copies the to pair back into l, h")
 	}
 	if purego || c.P.Cfg.GOARCH != "" && c.P.Cfg.GOARCH != "amd64" {
-		f := c.P.Func("pkg/curl", "transform")
-		ok := f != nil && f.Blocks != nil
+		f := cp
+		ok := f != nil && f.Blocks != nil && cg != nil && cg != cp
 		if ok {
 			b := ana.NewBuilder(c.P, f)
 			n := 0
 			for _, ci := range ana.Calls(f) {
 				n++
-				_, m := ana.Match("call<repo/pkg/curl.transformGeneric>(p0, p1, p2, p3)", b.CallTermAt(ci))
+				_, m := ana.Match("call<"+cg.String()+">(p0, p1, p2, p3)", b.CallTermAt(ci))
 				ok = ok && m
 			}
 			ok = ok && n == 1 && globalsTouched(f) == 0
